@@ -630,3 +630,92 @@ def variant_edges(ctx, local, variant):
                 if rest == [variant] and not (tt is not None and tt.k == "unreachable"):
                     out.append((b.idx, t.otherwise, "otherwise"))
     return out
+
+
+def const_strs_of(ctx, operand):
+    """the set of string literals an operand can hold, also when it is the loop variable of
+    `for x in ["a", "b"]` (elements of an array literal reached through into_iter/next); None if
+    anything else can flow in"""
+    one = ctx.const_str_of(operand)
+    if one is not None:
+        return {one}
+    ITER = ("core::iter::traits::iterator::Iterator::next", "core::iter::traits::collect::IntoIterator::into_iter",
+            "core::slice::<impl [T]>::iter", "core::array::<impl core::iter::traits::collect::IntoIterator for [T; N]>::into_iter",
+            "core::array::<impl core::iter::traits::collect::IntoIterator for &[T; N]>::into_iter")
+    out = set()
+    work = list(ctx.origins.of_operand(operand))
+    seen = set()
+    n = 0
+    while work and n < 60:
+        n += 1
+        o = work.pop()
+        if o.ident() in seen:
+            continue
+        seen.add(o.ident())
+        if o.kind == "const" and o.extra is not None and o.extra.const_str is not None:
+            out.add(o.extra.const_str)
+        elif o.kind == "call" and o.extra is not None and o.extra.is_call_to(*ITER):
+            for a in o.extra.args:
+                work.extend(ctx.origins.of_operand(a))
+        elif o.kind == "agg" and o.extra is not None and hasattr(o.extra, "rv") and o.extra.rv.j.get("ak") == "array":
+            for a in o.extra.rv.ops:
+                if a.is_const and a.const_str is not None:
+                    out.add(a.const_str)
+                else:
+                    work.extend(ctx.origins.of_operand(a))
+        else:
+            return None
+    return out or None
+
+
+def control_switches_outside_loops(ctx, block):
+    """like cfg.control_switches, but a controlling switch that is merely the exit test of a loop
+    around the block (`for file in [..] { .. }`) is replaced by what controls that loop"""
+    scc_of = {}
+    for comp in ctx.cfg.sccs():
+        if len(comp) > 1:
+            for b in comp:
+                scc_of[b] = comp
+    out = []
+    seen = set()
+    work = [block]
+    while work:
+        b = work.pop()
+        if b in seen:
+            continue
+        seen.add(b)
+        for sbb, edges in ctx.cfg.control_switches(b):
+            comp = scc_of.get(b)
+            if comp is not None and sbb in comp:
+                succs = [e[1] for e in ctx.cfg.edges() if e[0] == sbb]
+                if any(x not in comp for x in succs):
+                    # loop-exit test of the loop containing b
+                    work.append(sbb)
+                    continue
+            if sbb == b:
+                continue
+            if sbb not in [x[0] for x in out]:
+                out.append((sbb, edges))
+    return out
+
+
+def must_execute(ctx, starts, targets, bb):
+    """None if every path from `starts` to `targets` executes block bb, else a witness path.  A block
+    inside a `for` loop over a non-empty literal array counts as executed when every path goes through
+    the loop header and every iteration (header -> body -> header) passes bb."""
+    p = ctx.cfg.witness_path(targets, (), starts=starts, removed_blocks=[bb])
+    if p is None:
+        return None
+    comp = next((c for c in ctx.cfg.sccs() if len(c) > 1 and bb in c), None)
+    if comp is None:
+        return p
+    edges = ctx.cfg.edges()
+    for h, _ in ctx.cfg.control_switches(bb):
+        if h not in comp or not any(e[0] == h and e[1] not in comp for e in edges):
+            continue
+        p1 = ctx.cfg.witness_path(targets, (), starts=starts, removed_blocks=[h])
+        body = [e[1] for e in edges if e[0] == h and e[1] in comp]
+        p2 = ctx.cfg.witness_path([h], (), starts=body, removed_blocks=[bb]) if body else [0]
+        if p1 is None and p2 is None:
+            return None
+    return p
